@@ -29,7 +29,8 @@ REQUIRED_CELLS = {t: ("noise:blank", "noise:whitespace", "noise:comment", "noise
                       "reader:snapshots", "reader:interactions", "keys:snapshots3", "keys:snapshots4",
                       "keys:interactions", "conv:nodetype=str", "conv:nodetype=int", "conv:timestamps x60",
                       "typeerror:lookup", "typeerror:zerodiv", "compact:beyond-2**53", "keys:beyond-2**53",
-                      "ids:#-with-marker-%", "keys:zero-padded-duplicates")
+                      "ids:#-with-marker-%", "keys:zero-padded-duplicates", "marker:*", "marker:$", "marker:?",
+                      "marker://", "marker:^")
                   for t in ("quick", "thorough")}
 
 
@@ -145,7 +146,8 @@ def noise_case(ctx, dn, lines_override=None):
     reader = rng.choice(("snapshots", "interactions"))
     directed = rng.random() < 0.5
     delim = rng.choice(iohelp.DELIMS)
-    marker = rng.choice(("#", "#", "%"))
+    marker = rng.choice(("#", "#", "%", "*", "$", "?", "//", "^"))
+    ctx.cell("marker:" + marker)
     m = Model(directed, True)
     rows = valid_rows(rng, reader, m)
     if not rows:
